@@ -65,14 +65,23 @@ func parentRoot(chain []*lib.Bundle, b *lib.Bundle) *felt.Felt {
 	return chain[n-1].Block.GlobalStateRoot
 }
 
+// blockArgs: number, hash, parent, claimed new root, old root, root the diff really produces,
+// key ids, transaction ids. `applied` is nil for an honest block (= its root).
 func (x *ids) blockArgs(u *universe, b *lib.Bundle, oldRoot *felt.Felt) string {
+	return x.blockArgsT(u, b, oldRoot, nil)
+}
+
+func (x *ids) blockArgsT(u *universe, b *lib.Bundle, oldRoot, applied *felt.Felt) string {
+	if applied == nil {
+		applied = b.Block.GlobalStateRoot
+	}
 	bi := u.blockKeys(b)
 	txs := make([]int, len(b.Block.Transactions))
 	for i, tx := range b.Block.Transactions {
 		txs[i] = x.of(tx.Hash())
 	}
-	return fmt.Sprintf("%d %d %d %d %d %s %s", b.Block.Number, x.of(b.Block.Hash), x.of(b.Block.ParentHash),
-		x.of(b.Block.GlobalStateRoot), x.of(oldRoot), natList(bi), natList(txs))
+	return fmt.Sprintf("%d %d %d %d %d %d %s %s", b.Block.Number, x.of(b.Block.Hash), x.of(b.Block.ParentHash),
+		x.of(b.Block.GlobalStateRoot), x.of(oldRoot), x.of(applied), natList(bi), natList(txs))
 }
 
 // errClass maps an error of the real code to the model's error classes.
@@ -82,10 +91,13 @@ func errClass(err error) string {
 	}
 	msg := err.Error()
 	switch {
-	case errors.Is(err, errInjected) || strings.Contains(msg, errInjected.Error()):
-		return "err:io"
 	case strings.Contains(msg, "couldn't initialize the running event filter"):
 		return "err:init"
+	case errors.Is(err, errInjected) || strings.Contains(msg, errInjected.Error()):
+		return "err:io"
+	case strings.Contains(msg, "state's current root") || strings.Contains(msg, "state commitment mismatch") ||
+		strings.Contains(msg, "does not match the expected root") || strings.Contains(msg, "root mismatch"):
+		return "err:state"
 	case errors.Is(err, core.ErrAggregatedBloomFilterBlockOutOfRange) || strings.Contains(msg, "block number is not within range"):
 		return "err:range"
 	case errors.Is(err, statebackend.ErrParentDoesNotMatchHead):
@@ -240,6 +252,7 @@ type stepRec struct {
 	memBits string
 	skip    bool // a fault inside a prune: commit numbering is not comparable, stop here
 	quiet   bool // only the result was recorded (steps of a fault run before the fault)
+	lazy    bool // the in-memory filter was not observed (left lazy)
 }
 
 type crashRec struct {
@@ -264,7 +277,16 @@ func newTrace(sc *Scenario, r *runner) *trace {
 func (t *trace) opLine(s *Step) string {
 	switch s.Op {
 	case "store", "finalise", "rejected":
+		switch s.Tamper {
+		case "newroot":
+			// the offered block claims a root its diff does not produce
+			return "store " + t.ids.blockArgsT(t.sc.U, s.B, parentRoot(s.After.Chain, s.B), s.HonestRoot)
+		case "oldroot":
+			return "store " + t.ids.blockArgs(t.sc.U, s.B, s.B.SU.OldRoot)
+		}
 		return "store " + t.ids.blockArgs(t.sc.U, s.B, parentRoot(s.After.Chain, s.B))
+	case "badrevert":
+		return "revert"
 	case "l1head":
 		return fmt.Sprintf("l1head %d", s.L1.BlockNumber)
 	case "prune":
@@ -279,18 +301,28 @@ func (t *trace) before(n *Node) { t.pre = n.fdb.Commits() }
 // step records a call and the state after it. Observing the live filter initialises it, which
 // the model is told with `touch`.
 func (t *trace) step(s *Step, err error, n *Node, store db.KeyValueStore) {
-	t.stepQ(s, err, n, store, false)
+	t.stepQL(s, err, n, store, false, false)
 }
 
 func (t *trace) stepQ(s *Step, err error, n *Node, store db.KeyValueStore, quiet bool) {
-	rec := stepRec{line: t.opLine(s), fault: "-", out: errClass(err), quiet: quiet}
-	if s.Op == "rejected" && err == nil {
+	t.stepQL(s, err, n, store, quiet, false)
+}
+
+// stepQL: quiet = only the result is recorded; lazy = the disk is observed but the in-memory
+// filter is left alone (after a kill / restart: the next call then runs on a filter that has not
+// been initialised yet, as in a freshly started process).
+func (t *trace) stepQL(s *Step, err error, n *Node, store db.KeyValueStore, quiet, lazy bool) {
+	rec := stepRec{line: t.opLine(s), fault: "-", out: errClass(err), quiet: quiet, lazy: lazy}
+	if (s.Op == "rejected" || s.Op == "badrevert") && err == nil {
 		rec.out = errClass(n.rejectErr)
 	}
-	if n.fdb.failAt > t.pre && n.fdb.failAt <= n.fdb.Commits() && rec.out == "err:io" {
+	if n.fdb.failAt > t.pre && n.fdb.failAt <= n.fdb.Commits() && (rec.out == "err:io" || rec.out == "err:init") {
 		// position among the call's OWN commits (window writes of a lazy filter initialisation
-		// inside the call are not commits of the call in the model)
+		// inside the call are not commits of the call in the model: they have a fault of their own)
 		rec.fault = fmt.Sprintf("f%d", n.fdb.failAt-t.pre-1-n.fdb.initWritesBetween(t.pre, n.fdb.failAt))
+		if n.fdb.isInitWrite(n.fdb.failAt) {
+			rec.fault = "i"
+		}
 		if s.Op == "prune" {
 			rec.skip = true
 		}
@@ -299,6 +331,12 @@ func (t *trace) stepQ(s *Step, err error, n *Node, store db.KeyValueStore, quiet
 		rec.fault = ""
 	}
 	if quiet {
+		t.steps = append(t.steps, rec)
+		return
+	}
+	if lazy {
+		rec.mem, rec.memBits = "lazy", "-"
+		rec.disk = t.observeDisk(store, true)
 		t.steps = append(t.steps, rec)
 		return
 	}
@@ -316,8 +354,8 @@ func (t *trace) stepQ(s *Step, err error, n *Node, store db.KeyValueStore, quiet
 }
 
 // crash records the image left by a crash after the kk-th commit of step j.
-func (t *trace) crash(step, kk int, img *memory.Database) {
-	t.crashes = append(t.crashes, crashRec{step: step, fault: fmt.Sprintf("c%d", kk), disk: t.observeDisk(img, true)})
+func (t *trace) crash(step int, fault string, img *memory.Database) {
+	t.crashes = append(t.crashes, crashRec{step: step, fault: fault, disk: t.observeDisk(img, true)})
 }
 
 func obsLine(o diskObs, mem string) string {
@@ -411,6 +449,11 @@ func (t *trace) script() (lines, want []string) {
 		if st.quiet {
 			continue
 		}
+		if st.lazy {
+			add("obs", obsLine(st.disk, "lazy"))
+			diskChecks(st.disk)
+			continue
+		}
 		add(touch, "ok")
 		add("obs", obsLine(st.disk, st.mem))
 		if st.mem != "broken" {
@@ -435,7 +478,7 @@ func (t *trace) compare(r *runner, sc *Scenario, extra map[string]any) {
 	got, err := drv.AskAll(lines)
 	r.res.HitN("driver-ms", int(time.Since(t0).Milliseconds()))
 	if err != nil {
-		r.res.Note("driver: %v", err)
+		r.res.Fatalf("Lean driver failed while replaying %s/%d (%d requests, %d answered): %v", sc.Name, sc.Seed, len(lines), len(got), err)
 		return
 	}
 	r.res.Compared(len(lines))
